@@ -148,6 +148,16 @@ def run(ctx):
         configs.append(('complement', r, (lambda T=T: etl.complement(T, [['k', 'v'], [0, 'r0']], buffersize=1, tempdir=tmpd)), None))
         configs.append(('distinct', r, (lambda T=T: etl.distinct(T, 'k')), None))
         configs.append(('aggregate', r, (lambda T=T: etl.aggregate(T, 'k', len)), None))
+    # extractors over one shared source object: every pass / iterator must get its own file position
+    import pickle as _pickle
+    for r in range(0, maxr + 1):
+        T = [['k', 'v']] + [[str((r - i) % 3), 'r%d' % i] for i in range(r)]
+        csvb = ''.join(','.join(row) + '\r\n' for row in T).encode()
+        pkb = b''.join(_pickle.dumps(tuple(row), -1) for row in T)
+        msc, msp = etl.MemorySource(csvb), etl.MemorySource(pkb)
+        configs.append(('fromcsv(MemorySource)', r, (lambda msc=msc: etl.fromcsv(msc)), None))
+        configs.append(('frompickle(MemorySource)', r, (lambda msp=msp: etl.frompickle(msp)), None))
+        configs.append(('fromtext(MemorySource)', r, (lambda msc=msc: etl.fromtext(msc)), None))
     # larger sources for the views whose shared state is positional (spill file, cache list)
     for r in (5,):
         T = [['k', 'v']] + [[i % 3, 'r%d' % i] for i in range(r)]
@@ -185,6 +195,32 @@ def run(ctx):
                                                                  proto.enc_list(sched)))
                     mach_meta.append((name, sched, trace, len(view.cache), view.cachecomplete))
                 del view
+        # a payload larger than one read chunk of the text layer, two iterators advanced alternately, then a fresh pass
+        bigT = [['k', 'v']] + [[str(i), 'value-%06d-%s' % (i, 'x' * 20)] for i in range(1200)]
+        bigcsv = ''.join(','.join(row) + '\r\n' for row in bigT).encode()
+        for vname, mkv in (('fromcsv(MemorySource, 40 KiB)', lambda: etl.fromcsv(etl.MemorySource(bigcsv))),
+                           ('fromtext(MemorySource, 40 KiB)', lambda: etl.fromtext(etl.MemorySource(bigcsv))),
+                           ('cache(fromcsv(MemorySource, 40 KiB))', lambda: etl.fromcsv(etl.MemorySource(bigcsv)).cache())):
+            v = mkv()
+            solo = list(v)
+            a, b = iter(v), iter(v)
+            ra, rb = [], []
+            try:
+                for i in range(len(solo)):
+                    ra.append(next(a))
+                    if i % 3 == 0:
+                        rb.append(next(b))
+                rb += list(b)
+                later = list(v)
+                okb = (ra == solo and rb == solo and later == solo)
+                what = 'rows differ'
+            except Exception as e:   # noqa
+                okb, what = False, 'raised %r' % e
+            ctx.case((vname, 'alternating'))
+            ctx.count('view:big-shared-source')
+            if not okb:
+                ctx.spec_fail('%s|interleaving' % vname.split('(')[0], 'two alternating iterators over %s: %s' % (vname, what),
+                              {'view': vname, 'rows': len(solo) - 1, 'schedule': 'a every step, b every third step, then b to the end, then a fresh pass'})
         # the CacheView machine itself (trace + cache length + completeness flag) against the real object
         for (name, sched, trace, clen, ccomp), out in zip(mach_meta, lean.run_driver(mach_lines)):
             real = ' | '.join(trace) + ' # cache=%d complete=%s' % (clen, proto.enc_bool(ccomp))
